@@ -54,3 +54,8 @@ package values
 //@   let u = old(beval(b))
 //@   let n = len(b)
 //@   ensures fresh(result) && big(result) == ite(n == 0, 0, ite(u >= pow2n(8 * n - 1, 520), u - pow2n(8 * n, 520), u))
+//@ schema values_int_bitop(M=BitwiseOr, F=tcor)
+//@ schema values_int_bitop(M=BitwiseXor, F=tcxor)
+//@ schema values_int_bitop(M=BitwiseAnd, F=tcand)
+//@ schema values_int_shift(M=BitwiseLeftShift, F=shl)
+//@ schema values_int_shift(M=BitwiseRightShift, F=shr)
